@@ -1,28 +1,30 @@
 (* SvcCheck.v -- the wiring the C09 history theorem and the model's ghost flag cc_start rest on, as facts extracted from
-   the Go source by /verif/translator (gen/Facts_svc.v) and checked here:
-   - an entry is mapped "at bootstrap" (createClusterCIDR with bootstrap = true) only by reconcileBootstrap, which only the
-     constructor calls, and the constructor filters the service ranges out after the last such call and before it occupies
-     the listed nodes: every entry the model flags cc_start has been filtered, as [construct] says;
-   - the field serviceCIDRs is written by the constructor only, once per filtered range: it is [svc_list (w_svc w)];
-   - blocks are taken out of use only through multiCIDRRangeAllocator.Release, which is called from the functions in which
-     the model has a release (ReleaseCIDR: release_all; prioritizedCIDRs: prioritized_try; updateCIDRsAllocation:
-     release_in) and from nowhere else;
-   - ReleaseCIDR occupies the service ranges again after releasing and before it drops the association. *)
-From Coq Require Import String List Arith Bool.
+   the Go source by /verif/translator (gen/Facts_svc.v) and checked here.  The facts are about call-graph reachability and
+   about the ORDER of primitive operations in the code of the constructor and of ReleaseCIDR with all callees inlined, so they
+   do not depend on how that code is cut into helper functions:
+   - an entry is mapped "at bootstrap" (createClusterCIDR with bootstrap = true, or with a non-constant flag) only on call
+     paths that start in the constructor: no entry point of the running controller reaches such a call;
+   - in the constructor, every such mapping precedes the first marking of a service range (occupyServiceCIDR), every marking
+     precedes the occupation of the listed nodes (occupyCIDRs), and the ranges that are marked are recorded in the field
+     serviceCIDRs (one store before each marking): every entry the model flags cc_start has been filtered, as [construct]
+     says, and [svc_list (w_svc w)] is what the field holds;
+   - the field serviceCIDRs is written on no path from an entry point;
+   - blocks are taken out of use only through multiCIDRRangeAllocator.Release, and every call of it is reached only through
+     the functions in which the model has a release (ReleaseCIDR: release_all; prioritizedCIDRs: prioritized_try;
+     updateCIDRsAllocation: release_in);
+   - ReleaseCIDR marks the service ranges again after releasing and before it drops the association. *)
+From Coq Require Import String List Arith Bool Lia.
 Import ListNotations.
 Open Scope string_scope.
 Open Scope nat_scope.
 
 Record svc_facts := {
-  sf_boot_true_callers : list string;
-  sf_boot_nonconst_callers : list string;
-  sf_bootstrap_callers : list string;
-  sf_svc_field_writers : list string;
-  sf_release_callers : list string;
-  sf_pool_release_callers : list string;
-  sf_ctor_last_bootstrap : nat; sf_ctor_first_filter : nat; sf_ctor_last_filter : nat; sf_ctor_first_occupy : nat;
-  sf_ctor_filters : nat; sf_ctor_appends : nat;
-  sf_rel_release : nat; sf_rel_remark : nat; sf_rel_assoc_delete : nat
+  sf_boot_roots : list string;            (* roots (entry points, constructor) that reach a bootstrap mapping *)
+  sf_release_escape : list string;        (* callers of allocator.Release reachable without passing through the three release sites *)
+  sf_pool_release_escape : list string;   (* callers of MultiCIDRSet.Release reachable without passing through allocator.Release *)
+  sf_svc_field_escape : list string;      (* writers of serviceCIDRs reachable from an entry point *)
+  sf_ctor_trace : list string;            (* boot | bootdyn | append | mark | occupy, in source order, callees inlined *)
+  sf_release_trace : list string          (* release | mark | assocdel *)
 }.
 
 Fixpoint slist_eqb (a b : list string) : bool :=
@@ -32,20 +34,41 @@ Fixpoint slist_eqb (a b : list string) : bool :=
   | _, _ => false
   end.
 Definition smem (x : string) (l : list string) : bool := existsb (String.eqb x) l.
+Definition is_nil (l : list string) : bool := match l with [] => true | _ => false end.
 
-Definition release_sites : list string := ["ReleaseCIDR"; "prioritizedCIDRs"; "updateCIDRsAllocation"; "updateCIDRsAllocation$1"].
+Fixpoint first_idx (x : string) (l : list string) (i : nat) : option nat :=
+  match l with
+  | [] => None
+  | y :: l' => if String.eqb x y then Some i else first_idx x l' (S i)
+  end.
+Fixpoint last_idx (x : string) (l : list string) (i : nat) : option nat :=
+  match l with
+  | [] => None
+  | y :: l' => match last_idx x l' (S i) with
+               | Some j => Some j
+               | None => if String.eqb x y then Some i else None
+               end
+  end.
+Definition lt_opt (a b : option nat) : bool := match a, b with Some x, Some y => x <? y | _, _ => false end.
+
+(* every marking is preceded by its own store to the field: at every prefix #append >= #mark, and equal at the end *)
+Fixpoint recorded (l : list string) (pending : nat) : bool :=
+  match l with
+  | [] => pending =? 0
+  | e :: l' => if String.eqb e "append" then recorded l' (S pending)
+               else if String.eqb e "mark" then match pending with O => false | S p => recorded l' p end
+               else recorded l' pending
+  end.
 
 Definition svc_wiring_ok (s : svc_facts) : bool :=
-  slist_eqb (sf_boot_true_callers s) ["reconcileBootstrap"] &&
-  slist_eqb (sf_boot_nonconst_callers s) [] &&
-  slist_eqb (sf_bootstrap_callers s) ["NewMultiCIDRRangeAllocator"] &&
-  slist_eqb (sf_svc_field_writers s) ["NewMultiCIDRRangeAllocator"] &&
-  forallb (fun c => smem c release_sites) (sf_release_callers s) &&
-  slist_eqb (sf_pool_release_callers s) ["Release"] &&
-  (0 <? sf_ctor_last_bootstrap s) && (sf_ctor_last_bootstrap s <? sf_ctor_first_filter s) &&
-  (sf_ctor_first_filter s <=? sf_ctor_last_filter s) && (sf_ctor_last_filter s <? sf_ctor_first_occupy s) &&
-  (sf_ctor_filters s =? sf_ctor_appends s) &&
-  (0 <? sf_rel_release s) && (sf_rel_release s <? sf_rel_remark s) && (sf_rel_remark s <? sf_rel_assoc_delete s).
+  slist_eqb (sf_boot_roots s) ["NewMultiCIDRRangeAllocator"] &&
+  is_nil (sf_release_escape s) && is_nil (sf_pool_release_escape s) && is_nil (sf_svc_field_escape s) &&
+  negb (smem "bootdyn" (sf_ctor_trace s)) &&
+  lt_opt (last_idx "boot" (sf_ctor_trace s) 0) (first_idx "mark" (sf_ctor_trace s) 0) &&
+  lt_opt (last_idx "mark" (sf_ctor_trace s) 0) (first_idx "occupy" (sf_ctor_trace s) 0) &&
+  recorded (sf_ctor_trace s) 0 &&
+  lt_opt (last_idx "release" (sf_release_trace s) 0) (first_idx "mark" (sf_release_trace s) 0) &&
+  lt_opt (first_idx "mark" (sf_release_trace s) 0) (last_idx "assocdel" (sf_release_trace s) 0).
 
 Lemma slist_eqb_eq a b : slist_eqb a b = true -> a = b.
 Proof.
@@ -53,17 +76,65 @@ Proof.
   intros H. apply andb_true_iff in H. destruct H as [H1 H2]. apply String.eqb_eq in H1. subst. f_equal. apply IH. exact H2.
 Qed.
 
+Lemma first_idx_spec x l : forall i j, first_idx x l i = Some j -> i <= j /\ nth_error l (j - i) = Some x /\ forall k, k < j - i -> nth_error l k <> Some x.
+Proof.
+  induction l as [|y l IH]; intros i j H; cbn in H; [discriminate|]. destruct (String.eqb x y) eqn:E.
+  - inversion H; subst. apply String.eqb_eq in E. subst. rewrite Nat.sub_diag. split; [apply le_n|split; [reflexivity|intros k Hk; inversion Hk]].
+  - destruct (IH (S i) j H) as (A & B & C). assert (Hji : j - i = S (j - S i)) by lia.
+    split; [lia|]. rewrite Hji. split; [exact B|].
+    intros [|k] Hk; cbn; [intros F; inversion F; subst; rewrite String.eqb_refl in E; discriminate|apply C; lia].
+Qed.
+
+Lemma last_idx_spec x l : forall i j, last_idx x l i = Some j -> i <= j /\ nth_error l (j - i) = Some x /\ forall k, j - i < k -> nth_error l k <> Some x.
+Proof.
+  induction l as [|y l IH]; intros i j H; cbn in H; [discriminate|]. destruct (last_idx x l (S i)) as [j'|] eqn:El.
+  - inversion H; subst j'. destruct (IH (S i) j El) as (A & B & C).
+    assert (Hji : j - i = S (j - S i)) by lia.
+    split; [lia|]. rewrite Hji. split; [exact B|].
+    intros [|k] Hk; [inversion Hk|]. cbn. apply C. lia.
+  - destruct (String.eqb x y) eqn:E; [|discriminate]. inversion H; subst. apply String.eqb_eq in E. subst. rewrite Nat.sub_diag.
+    split; [apply le_n|split; [reflexivity|]]. intros [|k] Hk; [inversion Hk|]. cbn.
+    (* nothing later: last_idx found none *)
+    match type of El with last_idx _ _ ?n = None => remember n as n0 eqn:Hn0; clear Hn0 end.
+    clear - El. revert k n0 El. induction l as [|z l IHl]; intros k n El; [destruct k; discriminate|].
+    cbn in El. destruct (last_idx y l (S n)) eqn:E2; [discriminate|]. destruct (String.eqb y z) eqn:E3; [discriminate|].
+    destruct k; cbn; [intros F; inversion F; subst; rewrite String.eqb_refl in E3; discriminate|eapply IHl; exact E2].
+Qed.
+
+(* what the order checks mean: every occurrence of a precedes every occurrence of b, and both occur *)
+Definition all_before (a b : string) (l : list string) : Prop :=
+  (exists i, nth_error l i = Some a) /\ (exists j, nth_error l j = Some b) /\
+  forall i j, nth_error l i = Some a -> nth_error l j = Some b -> i < j.
+
+Lemma lt_opt_all_before a b l : lt_opt (last_idx a l 0) (first_idx b l 0) = true -> all_before a b l.
+Proof.
+  unfold lt_opt. destruct (last_idx a l 0) as [x|] eqn:Ea; [|discriminate]. destruct (first_idx b l 0) as [y|] eqn:Eb; [|discriminate].
+  intros H. apply Nat.ltb_lt in H. destruct (last_idx_spec _ _ _ _ Ea) as (_ & A1 & A2). destruct (first_idx_spec _ _ _ _ Eb) as (_ & B1 & B2).
+  rewrite Nat.sub_0_r in *. split; [exists x; exact A1|]. split; [exists y; exact B1|].
+  intros i j Hi Hj. destruct (Nat.lt_ge_cases x i) as [Hxi|Hxi]; [exfalso; exact (A2 i Hxi Hi)|].
+  destruct (Nat.lt_ge_cases j y) as [Hjy|Hjy]; [exfalso; exact (B2 j Hjy Hj)|].
+  lia.
+Qed.
+
 Theorem svc_wiring_ok_spec s : svc_wiring_ok s = true ->
-  sf_boot_true_callers s = ["reconcileBootstrap"] /\ sf_boot_nonconst_callers s = [] /\
-  sf_bootstrap_callers s = ["NewMultiCIDRRangeAllocator"] /\ sf_svc_field_writers s = ["NewMultiCIDRRangeAllocator"] /\
-  (forall c, In c (sf_release_callers s) -> In c release_sites) /\ sf_pool_release_callers s = ["Release"] /\
-  (sf_ctor_last_bootstrap s < sf_ctor_first_filter s)%nat /\ (sf_ctor_last_filter s < sf_ctor_first_occupy s)%nat /\
-  sf_ctor_filters s = sf_ctor_appends s /\
-  (sf_rel_release s < sf_rel_remark s)%nat /\ (sf_rel_remark s < sf_rel_assoc_delete s)%nat.
+  sf_boot_roots s = ["NewMultiCIDRRangeAllocator"] /\ sf_release_escape s = [] /\ sf_pool_release_escape s = [] /\ sf_svc_field_escape s = [] /\
+  ~ In "bootdyn" (sf_ctor_trace s) /\
+  all_before "boot" "mark" (sf_ctor_trace s) /\ all_before "mark" "occupy" (sf_ctor_trace s) /\ recorded (sf_ctor_trace s) 0 = true /\
+  all_before "release" "mark" (sf_release_trace s) /\
+  (exists i j, nth_error (sf_release_trace s) i = Some "mark" /\ nth_error (sf_release_trace s) j = Some "assocdel" /\ i < j).
 Proof.
   unfold svc_wiring_ok. intros H. repeat (apply andb_true_iff in H; destruct H as [H ?]).
-  repeat split; try (apply slist_eqb_eq; assumption); try (apply Nat.ltb_lt; assumption); try (apply Nat.eqb_eq; assumption).
-  intros c Hc. match goal with Hf : forallb _ _ = true |- _ => rewrite forallb_forall in Hf; specialize (Hf c Hc) end.
-  unfold smem in *. match goal with Hf : existsb _ _ = true |- _ => apply existsb_exists in Hf; destruct Hf as (x & Hx & E) end.
-  apply String.eqb_eq in E. subst. assumption.
+  assert (Hnil : forall l, is_nil l = true -> l = []) by (intros [|x l] E; [reflexivity|discriminate E]).
+  split; [apply slist_eqb_eq; assumption|]. split; [apply Hnil; assumption|]. split; [apply Hnil; assumption|]. split; [apply Hnil; assumption|].
+  split.
+  { intros Hin. match goal with Hn : negb (smem "bootdyn" _) = true |- _ => apply negb_true_iff in Hn; unfold smem in Hn;
+      assert (Hex : existsb (String.eqb "bootdyn") (sf_ctor_trace s) = true) by (apply existsb_exists; exists "bootdyn"; split; [exact Hin|apply String.eqb_refl]);
+      rewrite Hn in Hex; discriminate Hex end. }
+  split; [apply lt_opt_all_before; assumption|]. split; [apply lt_opt_all_before; assumption|]. split; [assumption|].
+  split; [apply lt_opt_all_before; assumption|].
+  match goal with Hl : lt_opt (first_idx "mark" (sf_release_trace s) 0) (last_idx "assocdel" (sf_release_trace s) 0) = true |- _ =>
+    unfold lt_opt in Hl; destruct (first_idx "mark" (sf_release_trace s) 0) as [x|] eqn:Ea; [|discriminate Hl];
+    destruct (last_idx "assocdel" (sf_release_trace s) 0) as [y|] eqn:Eb; [|discriminate Hl]; apply Nat.ltb_lt in Hl;
+    destruct (first_idx_spec _ _ _ _ Ea) as (_ & A1 & _); destruct (last_idx_spec _ _ _ _ Eb) as (_ & B1 & _); rewrite Nat.sub_0_r in *;
+    exists x, y; split; [exact A1|split; [exact B1|exact Hl]] end.
 Qed.
